@@ -2,9 +2,9 @@
    exporter part (one Write of line + LF, nothing on error) is stated by the row/stream model. *)
 From Coq Require Import ZArith List Bool Lia.
 From JL.std Require Import GoBase GoStrconv GoJsonNum GoJson GoJsonStrict GoJsonMarshal.
-From JL.std Require Import GoVal.
+From JL.std Require Import GoTime GoVal.
 From JL.model Require Import Row Template TemplateJson.
-From JL.proofs Require Import JsonStr JsonWrite JsonProofs MarshalValid.
+From JL.proofs Require Import JsonStr JsonWrite JsonProofs MarshalValid MarshalTyping.
 Import ListNotations.
 Open Scope Z_scope.
 
@@ -95,3 +95,57 @@ Theorem C01_pipeline_line :
       exists l, out = l ++ [10] /\ is_json_object l = true /\ ~ In 10 l.
 Proof. exact pipeline_line. Qed.
 Print Assumptions C01_pipeline_line.
+
+(* ---- the typing premise discharged (JL.proofs.MarshalTyping) ----
+   [tw_rv] / [tw_cell] / [tw_crow]: every RAW value held (at any depth) has byte-string texts: strings,
+   json.Numbers, []byte and [N]byte contents and map / row keys are lists of bytes, a uint8 is a
+   byte, a time.Time has a non-negative nanosecond field. A template is typed when its prototype
+   row is ([template_typed t := tw_crow t]); every template built by With / WithRow from byte-string
+   column names is (MarshalTyping.build_template_typed).
+   One more oracle hypothesis, on the record O standing for the Go standard library
+   ([oracles_typed O], written out below): strconv.FormatFloat returns bytes; a time returned by the
+   lenient path of time.Parse has a non-negative nanosecond field. *)
+
+(* the invariant is preserved by importer.GetRow (for EVERY line: any list of integers) and by
+   CreateRow (arrays, maps, rows, JSON text), and implies the invariant MarshalJSON needs *)
+Theorem C01_typing_preserved :
+  forall (O : oracles),
+    (forall fmt prec bits x, bytes_ok (o_ffmt O fmt prec bits x))
+    /\ (forall s t, o_time_parse_slow O s = Some t -> 0 <= tnsec t) ->
+    (forall n ti line r, tw_crow ti -> get_row O parse_top_rv n ti line = Ok r -> tw_crow r)
+    /\ (forall n t input row, tw_crow t -> tw_rv input ->
+          create_row O parse_top_rv n t input = Ok row -> tw_crow row)
+    /\ (forall r, tw_crow r -> row_bytes O r).
+Proof.
+  exact (fun O HO => conj (get_row_typed O HO) (conj (create_row_typed O HO) (row_typed_bytes O HO))).
+Qed.
+Print Assumptions C01_typing_preserved.
+
+(* exporter.Export of a typed input through a typed template: no residual premise on the row *)
+Theorem C01_export_line_typed :
+  forall (O : oracles) (jfloat : bool -> Z -> option str) (jother : Z -> option str),
+    (forall is32 x s, jfloat is32 x = Some s -> is_json_number s = true) ->
+    (forall tag s, jother tag = Some s -> exists t, write_jv t = Some s /\ jv_bytes_ok t) ->
+    (forall fmt prec bits x, bytes_ok (o_ffmt O fmt prec bits x))
+    /\ (forall s t, o_time_parse_slow O s = Some t -> 0 <= tnsec t) ->
+    forall n to input out,
+      tw_crow to -> tw_rv input ->
+      export_bytes O encode_string parse_top_rv jfloat jother n to input = Ok out ->
+      exists line, out = line ++ [10] /\ is_json_object line = true /\ ~ In 10 line.
+Proof. exact export_line_typed. Qed.
+Print Assumptions C01_export_line_typed.
+
+(* one line through importer and exporter: for every line and every pair of typed templates,
+   whatever is handed to the single Write is one valid JSON object without raw LF, then LF *)
+Theorem C01_pipeline_line_typed :
+  forall (O : oracles) (jfloat : bool -> Z -> option str) (jother : Z -> option str),
+    (forall is32 x s, jfloat is32 x = Some s -> is_json_number s = true) ->
+    (forall tag s, jother tag = Some s -> exists t, write_jv t = Some s /\ jv_bytes_ok t) ->
+    (forall fmt prec bits x, bytes_ok (o_ffmt O fmt prec bits x))
+    /\ (forall s t, o_time_parse_slow O s = Some t -> 0 <= tnsec t) ->
+    forall n ti to line out,
+      tw_crow ti -> tw_crow to ->
+      pipeline O encode_string parse_top_rv jfloat jother n ti to line = Ok out ->
+      exists l, out = l ++ [10] /\ is_json_object l = true /\ ~ In 10 l.
+Proof. exact pipeline_line_typed. Qed.
+Print Assumptions C01_pipeline_line_typed.
